@@ -2,7 +2,9 @@
 //! (reject) and isolation rules loaded per resource; serves C01, C04, C05.
 //!
 //! case: tag base_ms nres  { nflow (id thr_bits interval)*  niso (id thr)* }*nres   ops...
-//! ops : B id res batch inbound extra | X id | A dt | R res | RI
+//! ops : B id res batch inbound extra | X id | A dt | R res | RI | Z mode
+//!       Z mode: reload rules that are Eq-equal to the loaded ones under fresh ids (0: per resource, 1: load-all,
+//!       2: load-all plus an unrelated resource); prints nothing
 //! out : per resource: nf ids.. ni ids..   (rules in the order the managers hold them)
 //!       B -> 0 | 1 btype rule snapshot ; X -> 2 | 20 (unknown id) ; A -> 3 ;
 //!       R -> 4 conc pass block complete rt ; RI -> 5 conc pass block complete rt ; panic -> -1
@@ -96,11 +98,17 @@ pub fn run_case(t: &mut Toks) -> Vec<i128> {
     clock::set_ms(base);
     let nres = t.usize();
     let names: Vec<String> = (0..nres).map(|k| format!("w{}_{}", tag, k)).collect();
+    let mut fspecs: Vec<Vec<(u64, f64, u32)>> = Vec::new();
+    let mut ispecs: Vec<Vec<(u64, u32)>> = Vec::new();
+    let mut zcount = 0u64;
     for name in &names {
+        fspecs.push(Vec::new());
+        ispecs.push(Vec::new());
         let nf = t.usize();
         let mut frules = Vec::new();
         for _ in 0..nf {
             let (id, thr, iv) = (t.u64(), t.f64bits(), t.u32());
+            fspecs.last_mut().unwrap().push((id, thr, iv));
             frules.push(Arc::new(flow::Rule {
                 id: format!("F{}", id),
                 resource: name.clone(),
@@ -118,6 +126,7 @@ pub fn run_case(t: &mut Toks) -> Vec<i128> {
         let mut irules = Vec::new();
         for _ in 0..ni {
             let (id, thr) = (t.u64(), t.u32());
+            ispecs.last_mut().unwrap().push((id, thr));
             irules.push(Arc::new(isolation::Rule {
                 id: format!("I{}", id),
                 resource: name.clone(),
@@ -207,6 +216,39 @@ pub fn run_case(t: &mut Toks) -> Vec<i128> {
                     }
                 }
             }
+            "Z" => {
+                let mode = t.u64();
+                zcount += 1;
+                let mk_f = |k: usize, z: u64| -> Vec<Arc<flow::Rule>> {
+                    fspecs[k].iter().rev().map(|(id, thr, iv)| Arc::new(flow::Rule {
+                        id: format!("F{}", id + 100000 * z), resource: names[k].clone(), threshold: *thr,
+                        stat_interval_ms: *iv, calculate_strategy: flow::CalculateStrategy::Direct,
+                        control_strategy: flow::ControlStrategy::Reject, ..Default::default() })).collect()
+                };
+                let mk_i = |k: usize, z: u64| -> Vec<Arc<isolation::Rule>> {
+                    ispecs[k].iter().rev().map(|(id, thr)| Arc::new(isolation::Rule {
+                        id: format!("I{}", id + 100000 * z), resource: names[k].clone(), threshold: *thr,
+                        ..Default::default() })).collect()
+                };
+                let r = guarded(|| {
+                    if mode == 0 {
+                        for k in 0..names.len() {
+                            if !fspecs[k].is_empty() { let _ = flow::load_rules_of_resource(&names[k], mk_f(k, zcount)); }
+                            if !ispecs[k].is_empty() { let _ = isolation::load_rules_of_resource(&names[k], mk_i(k, zcount)); }
+                        }
+                    } else {
+                        let mut fa: Vec<Arc<flow::Rule>> = (0..names.len()).flat_map(|k| mk_f(k, zcount)).collect();
+                        let mut ia: Vec<Arc<isolation::Rule>> = (0..names.len()).flat_map(|k| mk_i(k, zcount)).collect();
+                        if mode == 2 && zcount % 2 == 1 {
+                            fa.push(Arc::new(flow::Rule { id: "FZ".into(), resource: format!("zz{}", tag), threshold: zcount as f64, ..Default::default() }));
+                            ia.push(Arc::new(isolation::Rule { id: "IZ".into(), resource: format!("zz{}", tag), threshold: zcount as u32, ..Default::default() }));
+                        }
+                        flow::load_rules(fa);
+                        isolation::load_rules(ia);
+                    }
+                });
+                if r.is_none() { out.push(-1); panicked = true; }
+            }
             x => panic!("bad op {}", x),
         }
     }
@@ -218,5 +260,8 @@ pub fn run_case(t: &mut Toks) -> Vec<i128> {
         let _ = guarded(|| flow::clear_rules_of_resource(name));
         let _ = guarded(|| isolation::clear_rules_of_resource(name));
     }
+    let zz = format!("zz{}", tag);
+    let _ = guarded(|| flow::clear_rules_of_resource(&zz));
+    let _ = guarded(|| isolation::clear_rules_of_resource(&zz));
     out
 }
